@@ -581,7 +581,7 @@ def import_git_commit(
         allow_submodules=repo._format.supports_tree_reference,
     )
     if unusual_modes != {}:
-        for path, mode in unusual_modes.iteritems():
+        for path, mode in unusual_modes.items():
             warn_unusual_mode(rev.foreign_revid, path, mode)
         mapping.import_unusual_file_modes(rev, unusual_modes)
     try:
